@@ -3,6 +3,8 @@ mod alpha;
 mod c02;
 mod c03;
 mod c05;
+mod c06;
+mod c07;
 mod c09;
 mod c10;
 mod c11;
@@ -41,6 +43,13 @@ fn main() {
         "C02" => explorer(prop, &tier, replay, c02::specs(&tier), &c02::C02),
         "C03" => explorer(prop, &tier, replay, c03::specs(&tier, prop), &c03::C03),
         "C05" => explorer(prop, &tier, replay, c05::specs(&tier), &c05::C05),
+        "C06" => {
+            if replay.is_some() {
+                eprintln!("C06 replay: the violation file names the option record and size; rerun ./check C06 quick");
+            }
+            c06::run(&tier)
+        }
+        "C07" => c07::run(&tier),
         "C09" => {
             let ctr = std::sync::Arc::new(c09::Counters::default());
             let ck = c09::C09 { ctr: ctr.clone() };
